@@ -161,7 +161,7 @@ fn sp_registry(s: &mut Sink<256>, r: &PortableRegistry) {
 // ------------------------------------------------------------------ complete (loop-free) leaves
 /// COMPLETE: compact id, all u32 (all four size classes)
 #[kani::proof]
-#[kani::unwind(8)]
+#[kani::unwind(24)]
 fn enc_symbol_compact() {
     let id: u32 = kani::any();
     let mut s = Sink::<256>::new();
@@ -193,157 +193,178 @@ fn any_prim() -> TypeDefPrimitive {
     }
 }
 
-/// COMPLETE: the five non-container definition kinds over their full domain: tags 2,3,5,6,7, array =
-/// u32 LE length then compact id, bit sequence = store then order, all 15 primitive tags
+/// COMPLETE (full domain, loop-free): sequence definition, tag 2, compact id
 #[kani::proof]
-#[kani::unwind(8)]
-fn enc_typedef_leaves() {
-    let k: u8 = kani::any();
-    kani::assume(k < 5);
+#[kani::unwind(24)]
+fn enc_def_sequence() {
+    check_def_leaf(&TypeDef::Sequence(TypeDefSequence::new(sym(kani::any()))));
+}
+/// COMPLETE: array definition, tag 3, u32 LE length THEN compact id
+#[kani::proof]
+#[kani::unwind(24)]
+fn enc_def_array() {
     let a: u32 = kani::any();
     let b: u32 = kani::any();
-    let d: TypeDef<PortableForm> = match k {
-        0 => TypeDef::Sequence(TypeDefSequence::new(sym(a))),
-        1 => TypeDef::Array(TypeDefArray::new(a, sym(b))),
-        2 => TypeDef::Primitive(any_prim()),
-        3 => TypeDef::Compact(TypeDefCompact::new(sym(a))),
-        _ => TypeDef::BitSequence(TypeDefBitSequence::new_portable(sym(a), sym(b))),
-    };
-    let mut s = Sink::<256>::new();
-    sp_def(&mut s, &d);
+    kani::cover!(a != b, "distinct len / id reachable");
+    check_def_leaf(&TypeDef::Array(TypeDefArray::new(a, sym(b))));
+}
+/// COMPLETE: primitive definition, tag 5, all 15 primitive tags
+#[kani::proof]
+#[kani::unwind(24)]
+fn enc_def_primitive() {
+    check_def_leaf(&TypeDef::Primitive(any_prim()));
+}
+/// COMPLETE: compact definition, tag 6
+#[kani::proof]
+#[kani::unwind(24)]
+fn enc_def_compact() {
+    check_def_leaf(&TypeDef::Compact(TypeDefCompact::new(sym(kani::any()))));
+}
+/// COMPLETE: bit-sequence definition, tag 7, store id THEN order id
+#[kani::proof]
+#[kani::unwind(24)]
+fn enc_def_bitsequence() {
+    let a: u32 = kani::any();
+    let b: u32 = kani::any();
+    kani::cover!(a != b, "distinct store / order reachable");
+    check_def_leaf(&TypeDef::BitSequence(TypeDefBitSequence::new_portable(sym(a), sym(b))));
+}
+fn check_def_leaf(d: &TypeDef<PortableForm>) {
+    let mut k = Sink::<256>::new();
+    sp_def(&mut k, d);
     let e = d.encode();
-    kani::cover!(k == 1 && a != b, "array with distinct len/id reachable");
-    assert!(s.eq(&e), "definition kinds 2,3,5,6,7 have the published layout");
+    assert!(k.eq(&e), "definition kinds 2,3,5,6,7 have the published layout");
 }
 
 // ------------------------------------------------------------------ bounded containers
-fn marker(tag: &str, on: bool) -> Option<String> {
-    if on {
-        Some(String::from(tag))
-    } else {
-        None
-    }
+// Fixed shapes (concrete container lengths and marker strings, every scalar symbolic over its full
+// domain).  Symbolic shapes made CBMC run out of memory (symbolic execution of Vec<u8> growth and
+// String clones for every shape at once), so each shape is its own harness.  The derived code is
+// uniform in the lengths; the marker strings are pairwise distinct so that a swap of two string
+// members, a reordering of struct members or a lost `compact` shows up as a byte difference.
+fn s(x: &str) -> String {
+    String::from(x)
 }
-fn docs(n: usize, a: &str, b: &str) -> Vec<String> {
-    let mut v = Vec::new();
-    if n >= 1 {
-        v.push(String::from(a));
-    }
-    if n >= 2 {
-        v.push(String::from(b));
-    }
-    v
+fn field_a() -> Field<PortableForm> {
+    Field { name: Some(s("n")), ty: sym(kani::any()), type_name: None, docs: Vec::new() }
 }
-fn any_field(maxdocs: usize) -> Field<PortableForm> {
-    let nd: usize = kani::any();
-    kani::assume(nd <= maxdocs);
-    Field { name: marker("n", kani::any()), ty: sym(kani::any()), type_name: marker("T", kani::any()), docs: docs(nd, "d", "ee") }
+fn field_b() -> Field<PortableForm> {
+    let mut d = Vec::new();
+    d.push(s("d"));
+    Field { name: None, ty: sym(kani::any()), type_name: Some(s("TT")), docs: d }
 }
-fn any_fields(max: usize, maxdocs: usize) -> Vec<Field<PortableForm>> {
-    let n: usize = kani::any();
-    kani::assume(n <= max);
-    let mut v = Vec::new();
-    let mut i = 0;
-    while i < n {
-        v.push(any_field(maxdocs));
-        i += 1;
-    }
-    v
-}
-
-/// BOUNDED (docs <= 2, marker strings): field = (optional name, compact id, optional type name, docs)
-#[kani::proof]
-#[kani::unwind(8)]
-fn enc_field() {
-    let f = any_field(2);
-    let mut s = Sink::<256>::new();
-    sp_field(&mut s, &f);
-    let e = f.encode();
-    kani::cover!(f.name.is_some() && f.type_name.is_none(), "name without type name reachable");
-    assert!(s.eq(&e), "field layout");
-}
-
-/// BOUNDED (fields <= 1, docs <= 1): variant = (name, fields, u8 index, docs)
-#[kani::proof]
-#[kani::unwind(8)]
-fn enc_variant() {
-    let nd: usize = kani::any();
-    kani::assume(nd <= 1);
-    let v = Variant { name: String::from("V"), fields: any_fields(1, 1), index: kani::any(), docs: docs(nd, "x", "") };
-    let mut s = Sink::<256>::new();
-    sp_variant(&mut s, &v);
-    let e = v.encode();
-    assert!(s.eq(&e), "variant layout");
-}
-
-/// BOUNDED (<= 1 element per container): composite, variant and tuple definitions (tags 0, 1, 4)
-#[kani::proof]
-#[kani::unwind(8)]
-fn enc_typedef_containers() {
-    let k: u8 = kani::any();
-    kani::assume(k < 3);
-    let d: TypeDef<PortableForm> = match k {
-        0 => TypeDef::Composite(TypeDefComposite::new(any_fields(1, 0))),
-        1 => {
-            let nv: usize = kani::any();
-            kani::assume(nv <= 1);
-            let mut vs = Vec::new();
-            if nv == 1 {
-                vs.push(Variant { name: String::from("V"), fields: any_fields(1, 0), index: kani::any(), docs: Vec::new() });
-            }
-            TypeDef::Variant(TypeDefVariant::new(vs))
-        }
-        _ => {
-            let n: usize = kani::any();
-            kani::assume(n <= 2);
-            let mut ids = Vec::new();
-            if n >= 1 {
-                ids.push(sym(kani::any()));
-            }
-            if n >= 2 {
-                ids.push(sym(kani::any()));
-            }
-            TypeDef::Tuple(TypeDefTuple::new_portable(ids))
-        }
-    };
-    let mut s = Sink::<256>::new();
-    sp_def(&mut s, &d);
+fn check_def(d: &TypeDef<PortableForm>) {
+    let mut k = Sink::<256>::new();
+    sp_def(&mut k, d);
     let e = d.encode();
-    assert!(s.eq(&e), "definition kinds 0,1,4 have the published layout");
+    assert!(k.eq(&e), "definition layout");
 }
 
-/// BOUNDED (path <= 2 segments, <= 1 parameter, leaf definition, docs <= 1; ids symbolic):
-/// type = path, parameters (name, optional compact id), definition, docs;
+/// BOUNDED (shape: name present, no type name, no docs): field = (optional name, compact id, optional type name, docs)
+#[kani::proof]
+#[kani::unwind(24)]
+fn enc_field_a() {
+    let f = field_a();
+    let mut k = Sink::<256>::new();
+    sp_field(&mut k, &f);
+    assert!(k.eq(&f.encode()), "field layout (shape a)");
+}
+
+/// BOUNDED (shape: no name, type name present, one doc line)
+#[kani::proof]
+#[kani::unwind(24)]
+fn enc_field_b() {
+    let f = field_b();
+    let mut k = Sink::<256>::new();
+    sp_field(&mut k, &f);
+    assert!(k.eq(&f.encode()), "field layout (shape b)");
+}
+
+/// BOUNDED (shape: one field, one doc line; index symbolic): variant = (name, fields, u8 index, docs)
+#[kani::proof]
+#[kani::unwind(24)]
+fn enc_variant() {
+    let mut fs = Vec::new();
+    fs.push(field_a());
+    let mut d = Vec::new();
+    d.push(s("x"));
+    let v = Variant { name: s("V"), fields: fs, index: kani::any(), docs: d };
+    let mut k = Sink::<256>::new();
+    sp_variant(&mut k, &v);
+    assert!(k.eq(&v.encode()), "variant layout");
+}
+
+/// BOUNDED (shape: one field): composite definition, tag 0
+#[kani::proof]
+#[kani::unwind(24)]
+fn enc_def_composite() {
+    let mut fs = Vec::new();
+    fs.push(field_b());
+    check_def(&TypeDef::Composite(TypeDefComposite::new(fs)));
+}
+
+/// BOUNDED (shape: one field-less variant, index symbolic): variant definition, tag 1
+#[kani::proof]
+#[kani::unwind(24)]
+fn enc_def_variant() {
+    let mut vs = Vec::new();
+    vs.push(Variant { name: s("A"), fields: Vec::new(), index: kani::any(), docs: Vec::new() });
+    check_def(&TypeDef::Variant(TypeDefVariant::new(vs)));
+}
+
+/// BOUNDED (shape: two members, ids symbolic): tuple definition, tag 4, members in order
+#[kani::proof]
+#[kani::unwind(24)]
+fn enc_def_tuple() {
+    let mut ids = Vec::new();
+    ids.push(sym(kani::any()));
+    ids.push(sym(kani::any()));
+    check_def(&TypeDef::Tuple(TypeDefTuple::new_portable(ids)));
+}
+
+/// BOUNDED (shape: path of 2 segments, one parameter with a type, array definition, one doc line; all ids, the array
+/// length and the entry id symbolic): type = path, parameters (name, optional compact id), definition, docs;
 /// registry = compact length, then (compact id, type)
 #[kani::proof]
-#[kani::unwind(8)]
+#[kani::unwind(24)]
 fn enc_type_and_registry() {
-    let np: usize = kani::any();
-    kani::assume(np <= 2);
-    let path = Path::<PortableForm> { segments: docs(np, "a", "bb") };
-    let nparam: usize = kani::any();
-    kani::assume(nparam <= 1);
+    let mut segs = Vec::new();
+    segs.push(s("a"));
+    segs.push(s("bb"));
     let mut params = Vec::new();
-    if nparam == 1 {
-        let has: bool = kani::any();
-        params.push(TypeParameter::<PortableForm> { name: String::from("P"), ty: if has { Some(sym(kani::any())) } else { None } });
-    }
-    let nd: usize = kani::any();
-    kani::assume(nd <= 1);
-    let ty = Type::<PortableForm> { path, type_params: params, type_def: TypeDef::Array(TypeDefArray::new(kani::any(), sym(kani::any()))), docs: docs(nd, "q", "") };
-    let mut s = Sink::<256>::new();
-    sp_type(&mut s, &ty);
-    let e = ty.encode();
-    assert!(s.eq(&e), "type layout");
-    let nreg: usize = kani::any();
-    kani::assume(nreg <= 1);
+    params.push(TypeParameter::<PortableForm> { name: s("P"), ty: Some(sym(kani::any())) });
+    let mut d = Vec::new();
+    d.push(s("q"));
+    let ty = Type::<PortableForm> {
+        path: Path::<PortableForm> { segments: segs },
+        type_params: params,
+        type_def: TypeDef::Array(TypeDefArray::new(kani::any(), sym(kani::any()))),
+        docs: d,
+    };
+    let mut k = Sink::<256>::new();
+    sp_type(&mut k, &ty);
+    assert!(k.eq(&ty.encode()), "type layout");
     let mut types = Vec::new();
-    if nreg == 1 {
-        types.push(PortableType { id: kani::any(), ty });
-    }
+    types.push(PortableType { id: kani::any(), ty });
     let reg = PortableRegistry { types };
-    let mut s2 = Sink::<256>::new();
-    sp_registry(&mut s2, &reg);
-    let e2 = reg.encode();
-    assert!(s2.eq(&e2), "registry layout: compact length, then (compact id, type)");
+    let mut k2 = Sink::<256>::new();
+    sp_registry(&mut k2, &reg);
+    assert!(k2.eq(&reg.encode()), "registry layout: compact length, then (compact id, type)");
+}
+
+/// BOUNDED (shape: parameter without a type)
+#[kani::proof]
+#[kani::unwind(24)]
+fn enc_type_param_none() {
+    let mut params = Vec::new();
+    params.push(TypeParameter::<PortableForm> { name: s("P"), ty: None });
+    let ty = Type::<PortableForm> {
+        path: Path::<PortableForm> { segments: Vec::new() },
+        type_params: params,
+        type_def: TypeDef::Compact(TypeDefCompact::new(sym(kani::any()))),
+        docs: Vec::new(),
+    };
+    let mut k = Sink::<256>::new();
+    sp_type(&mut k, &ty);
+    assert!(k.eq(&ty.encode()), "type layout (parameter without type)");
 }
